@@ -137,8 +137,13 @@ TStep ==
                /\ skip' = FALSE
                /\ ro' = (e.a = 1)
                /\ UNCHANGED <<viol, drift>>
-          ELSE IF skip \/ e.op = "panic" THEN /\ skip' = TRUE
-                                                /\ UNCHANGED <<s, viol, drift, ro>>
+          ELSE IF skip \/ e.op = "panic"
+               THEN \* the deques are corrupt (reported when it happened): the model cannot follow, but the size bound is still judged on
+                    \* what the code reports - entries no deque reaches any more can never be chosen as victims (C04)
+                    /\ skip' = TRUE
+                    /\ viol' = viol \o (IF e.op = "evict" /\ e.pend = 0 /\ p.ws > p.max
+                                        THEN <<[line |-> i, pred |-> "C04.bound_after_eviction", detail |-> <<p.ws, p.max, "deques corrupt">>]>> ELSE <<>>)
+                    /\ UNCHANGED <<s, drift, ro>>
           ELSE LET t   == StepModel(s, e)
                    w   == t.w
                    wf  == PostWellFormed(p)
